@@ -556,6 +556,8 @@ class PrioritizedReplayBuffer(LAP):
             high=(np.arange(batch_size) + 1) * segment,
             size=batch_size
         )
+        # (k + 1) * segment can exceed the total by rounding in the last segment
+        random_points = np.minimum(random_points, probabilities[-1])
 
         self.priority.sampled_indices = np.searchsorted(
             probabilities, random_points
